@@ -10,10 +10,18 @@
      ancestors nv par i   := the model's ancestor walk from parent i (nearest first);
      diagOnly simple reduced i := reduced and dof_simplenum[i] <> 0 (row reduced to the diagonal);
      fits cols rows       := rows of values have the lengths of the structure rows;
+     tri n cols           := row i of the structure = distinct columns < i followed by i (what C06_structure
+                             establishes for every forest: C06_structure_tri);
+     Lfull cols rows i c  := the unit-lower-triangular L stored in the strict lower entries of the rows
+                             (1 on the diagonal), Dof rows i := the diagonal entry of row i,
+     LDL n cols rows r s  := (L' D L)(r, s) = sum_i Lfull i r * Dof i * Lfull i s;
+     pref n cols          := the row of every off-diagonal column of row p is a prefix of row p;
+     Ent cols rows i j    := stored entry (i, j), j <= i;  Msym := the symmetric matrix it denotes;
      csr_of cols rows     := the CSR matrix (Model/Sparse.v) with that structure and those values. *)
 From Coq Require Import ZArith List Bool Arith Lia PrimFloat Reals Sorted.
 From MJV Require Import Lib.Num Lib.NumR Model.Sparse Model.SparseM
-  Proof.LinAlgBase Proof.SparseProof Proof.SparseSymProof Proof.SparseMProof.
+  Proof.LinAlgBase Proof.SparseProof Proof.SparseSymProof Proof.SparseMProof Proof.SparseMSolveProof
+  Proof.SparseMFactorProof.
 Import ListNotations.
 
 (* ---------------- structure: for EVERY forest, EVERY dof_simplenum and both values of `reduced`
@@ -59,6 +67,69 @@ Theorem C06_fullM_mulM :
     (forall i j : nat, dget (sym2dense nv M) i j = dget (sym2dense nv M) j i).
 Proof. exact fullM_mulM. Qed.
 Print Assumptions C06_fullM_mulM.
+
+(* ---------------- mj_factorI + mj_solveLD (index = NULL, one right-hand side): solve o factor
+   inverts mj_fullM / mj_mulM.  For EVERY forest, every dof_simplenum such that a dof whose row is
+   not reduced has no ancestor with a reduced row (the compiler marks only childless world-children
+   as simple), every matrix M with the structure (any values: only the stored lower triangle
+   matters) and every x: if the pivots D_i stored by mj_factorI are non-zero, then
+   w = mj_solveLD(mj_factorI(M), x) satisfies  mj_fullM(M) w = x  and  mj_mulM(M, w) = x.
+   (Positive definiteness of M, which makes the pivots positive, is not proved; it is checked by the
+   oracle on the implementation's M.) *)
+Theorem C06_solve_factor :
+  forall (nv : nat) (par simple : list Z) (reduced : bool) (rows0 : list (list R)) (x : list R),
+    forest nv par ->
+    (forall i j : nat, (i < nv)%nat -> diagOnly simple reduced i = false -> In j (ancestors nv par i) ->
+       diagOnly simple reduced j = false) ->
+    let cs := dofdof_rows nv par simple reduced false in
+    fits cs rows0 -> length x = nv ->
+    let st := factorI nv cs rows0 in
+    (forall i : nat, (i < nv)%nat -> Dof (fst st) i <> 0%R) ->
+    let w := solveLD nv cs (fst st) (snd st) x in
+    let M := csr_of cs rows0 in
+    length w = nv /\ dmulMatVec (sym2dense nv M) w = x /\ mulSymVecSparse nv M w = x.
+Proof. exact factor_solve_forest. Qed.
+Print Assumptions C06_solve_factor.
+
+(* mj_factorI alone, on any triangular structure with the prefix property: the stored L (strict lower
+   entries), D (diagonals) and inverse pivots satisfy L' D L = M and D_i * dinv_i = 1 *)
+Theorem C06_factorI :
+  forall (n : nat) (cs : list (list nat)) (rows0 : list (list R)),
+    tri n cs -> pref n cs -> fits cs rows0 ->
+    let st := factorI n cs rows0 in
+    (forall i : nat, (i < n)%nat -> Dof (fst st) i <> 0%R) ->
+    fits cs (fst st) /\ length (snd st) = n /\
+    (forall i : nat, (i < n)%nat -> (Dof (fst st) i * nth i (snd st) 0 = 1)%R) /\
+    (forall r s : nat, (r < n)%nat -> (s < n)%nat -> LDL n cs (fst st) r s = Msym cs rows0 r s).
+Proof. exact factorI_spec. Qed.
+Print Assumptions C06_factorI.
+
+(* mj_solveLD alone: for every stored factor (unit-lower L, pivots D, inverse pivots) the three
+   passes (zero-skip and diagonal-row shortcuts included) return the solution of (L' D L) w = x *)
+Theorem C06_solveLD :
+  forall (n : nat) (cols : list (list nat)) (rows : list (list R)) (dinv x : list R),
+    tri n cols -> fits cols rows -> length dinv = n -> length x = n ->
+    (forall i : nat, (i < n)%nat -> (Dof rows i * nth i dinv 0 = 1)%R) ->
+    length (solveLD n cols rows dinv x) = n /\
+    forall r : nat, (r < n)%nat ->
+      bsum n (fun s => (LDL n cols rows r s * nth s (solveLD n cols rows dinv x) 0)%R) = nth r x 0%R.
+Proof. exact solveLD_spec. Qed.
+Print Assumptions C06_solveLD.
+
+(* every forest structure is triangular with the diagonal last and has the prefix property *)
+Theorem C06_structure_tri :
+  forall (nv : nat) (par simple : list Z) (reduced : bool), forest nv par ->
+    tri nv (dofdof_rows nv par simple reduced false).
+Proof. exact forest_tri. Qed.
+Print Assumptions C06_structure_tri.
+
+Theorem C06_structure_pref :
+  forall (nv : nat) (par simple : list Z) (reduced : bool), forest nv par ->
+    (forall i j : nat, (i < nv)%nat -> diagOnly simple reduced i = false -> In j (ancestors nv par i) ->
+       diagOnly simple reduced j = false) ->
+    pref nv (dofdof_rows nv par simple reduced false).
+Proof. exact forest_pref. Qed.
+Print Assumptions C06_structure_pref.
 
 (* ---------------- non-vacuity: a branching forest with two trees *)
 Example C06_example_structure :
